@@ -1,6 +1,9 @@
 SPECIFICATION Spec
 CONSTANTS
   MaxClocks = 4
+  Rounds = 1
+  DVals = {1, 2, 3}
   Overlap = TRUE
+  Hist = FALSE
   Fault = "none"
 INVARIANTS Emit
